@@ -206,11 +206,11 @@ func runToPrecision(r *engine.Run)   { runMethod(r, toPrecisionM) }
 // round trip Number(String(x))
 
 const strPrelude = `
-function __str(x) { return [String(x), "" + x, x.toString(), x.toString(10), x.toString(undefined)].join("\n"); }
+function __str(x) { return [String(x), "" + x, x.toString(), x.toString(10), x.toString(undefined), JSON.stringify(x), [x].join()].join("\n"); }
 function __rt(x) { return Number(String(x)); }
 `
 
-var strForms = []string{"String(x)", `""+x`, "x.toString()", "x.toString(10)", "x.toString(undefined)"}
+var strForms = []string{"String(x)", `""+x`, "x.toString()", "x.toString(10)", "x.toString(undefined)", "JSON.stringify(x)", "[x].join()"}
 
 func runToString(r *engine.Run) {
 	c, err := newCaller(strPrelude)
@@ -255,6 +255,15 @@ func runToString(r *engine.Run) {
 			if errs == "" {
 				obs = lines[i]
 			}
+			exp := exp
+			op := "String"
+			if form == "JSON.stringify(x)" {
+				// 15.12.3 Str: a finite number serialises as ToString(value), anything else as null
+				op = "JSON"
+				if !finite && x != 0 {
+					exp = "null"
+				}
+			}
 			r.Eval(finite)
 			r.Outcome(obs)
 			if obs == exp {
@@ -264,8 +273,11 @@ func runToString(r *engine.Run) {
 			if !wanted(r, sub) {
 				continue
 			}
-			report(r, engine.Mismatch{Key: sub, Input: strings.ReplaceAll(form, "x", "("+jsNum(x)+")"), Expected: exp, Observed: obs,
-				Aux: map[string]string{"op": "String", "x": key}})
+			aux := map[string]string{"op": op, "x": key}
+			if num.IsIntegral(x) {
+				aux["exact"] = num.BigOf(x).String()
+			}
+			report(r, engine.Mismatch{Key: sub, Input: strings.ReplaceAll(form, "x", "("+jsNum(x)+")"), Expected: exp, Observed: obs, Aux: aux})
 		}
 		// round trip: Number(String(x)) has x's bits (NaN -> NaN, -0 -> "0" -> +0)
 		expRT := numStr(back, num.ToString(back))
